@@ -427,7 +427,16 @@ fn render_doc(spec: &ConfSpec, rate_secs: Option<u64>, version: u64, fmt: u64) -
 fn reloader_history(rep: &mut Report, rng: &mut Rng, idx: u64) {
     let sc = Scratch::new("c15r");
     let fmt = rng.below(2);
-    let path = sc.join(if fmt == 0 { "cfg.json" } else { "cfg.yaml" });
+    // half of the histories reach the document through a symbolic link (deployments that switch a `current` link)
+    let real = sc.join(if fmt == 0 { "real/cfg.json" } else { "real/cfg.yaml" });
+    std::fs::create_dir_all(real.parent().unwrap()).unwrap();
+    let via_link = rng.chance(1, 2);
+    let link = sc.join(if fmt == 0 { "cfg.json" } else { "cfg.yaml" });
+    if via_link {
+        std::os::unix::fs::symlink(&real, &link).unwrap();
+        rep.count("reloader_histories_through_a_symlink", 1);
+    }
+    let path = if via_link { link.clone() } else { real.clone() };
     let sink = new_sink();
     let constructions = Arc::new(AtomicU64::new(0));
     let mut d = Deserializers::default();
@@ -435,11 +444,15 @@ fn reloader_history(rep: &mut Report, rng: &mut Rng, idx: u64) {
     let mut version = 1u64;
     let mut rate = Some(30u64);
     let mut active = gen_spec(rng, 4, 3);
+    if rng.chance(1, 2) {
+        active.root_level = LevelFilter::Info;
+    }
     let mut text = render_doc(&active, rate, version, fmt);
     let mut mtime = SystemTime::UNIX_EPOCH + Duration::from_secs(1_700_000_000);
     let write = |text: &str, mtime: SystemTime| {
-        std::fs::write(&path, text).unwrap();
-        let f = std::fs::OpenOptions::new().write(true).open(&path).unwrap();
+        // edits always go to the real file (in place)
+        std::fs::write(&real, text).unwrap();
+        let f = std::fs::OpenOptions::new().write(true).open(&real).unwrap();
         f.set_modified(mtime).unwrap();
     };
     write(&text, mtime);
@@ -486,7 +499,7 @@ fn reloader_history(rep: &mut Report, rng: &mut Rng, idx: u64) {
     for _ in 0..steps {
         let Some(cur_rate) = rate else { break };
         mtime += Duration::from_secs(1 + rng.below(5));
-        let kind = rng.below(8);
+        let kind = rng.below(10);
         // what is on disk after the edit: None = deleted
         let mut on_disk: Option<String> = Some(text.clone());
         let mut new_valid: Option<(ConfSpec, Option<u64>, u64)> = None;
@@ -504,7 +517,7 @@ fn reloader_history(rep: &mut Report, rng: &mut Rng, idx: u64) {
             }
             3 => {
                 ops.push("delete".into());
-                let _ = std::fs::remove_file(&path);
+                let _ = std::fs::remove_file(&real);
                 on_disk = None;
             }
             4 => {
@@ -516,6 +529,26 @@ fn reloader_history(rep: &mut Report, rng: &mut Rng, idx: u64) {
                 write(&t, mtime);
                 on_disk = Some(t);
                 new_valid = Some((spec, nr, version));
+            }
+            8 | 9 => {
+                // an edit that keeps the byte length of the document: only the root level changes (info <-> warn)
+                let cur = render_doc(&active, rate, active_version, fmt);
+                let mut flipped = active.clone();
+                flipped.root_level = match active.root_level {
+                    LevelFilter::Info => LevelFilter::Warn,
+                    LevelFilter::Warn => LevelFilter::Info,
+                    other => other,
+                };
+                let t = render_doc(&flipped, rate, active_version, fmt);
+                if text == cur && Some(&text) == last_polled.as_ref() && flipped.root_level != active.root_level && t.len() == cur.len() {
+                    ops.push("same-length-edit".into());
+                    write(&t, mtime);
+                    on_disk = Some(t);
+                    new_valid = Some((flipped, rate, active_version));
+                    rep.count("same_length_edits", 1);
+                } else {
+                    ops.push("poll-unchanged".into());
+                }
             }
             5 => {
                 ops.push("unknown-root-key".into());
@@ -760,11 +793,9 @@ pub fn run(rep: &mut Report) {
     }
     run_cases(rep, "reentrant", 16, reentrant);
     run_cases(rep, "reloader", if thorough { 6000 } else { 1000 }, reloader_history);
-    if thorough {
-        std::env::set_var("L4V_JOBS", "4");
-        run_cases(rep, "e2e", 8, e2e);
-        std::env::remove_var("L4V_JOBS");
-    }
+    std::env::set_var("L4V_JOBS", "4");
+    run_cases(rep, "e2e", if thorough { 8 } else { 2 }, e2e);
+    std::env::remove_var("L4V_JOBS");
     if rep.tier == "thorough" && std::env::var("L4V_NO_MIRI").is_err() {
         crate::miri::run_miri_seeds(rep, "C15", 32);
         rep.require(rep.counter("miri_seeds_run") >= 32 / 2, "fewer than half of the Miri seeds produced a result");
